@@ -399,17 +399,17 @@ func (obj *Package) Remove(name string) (removed bool) {
 	}
 	name = strings.ToLower(name)
 	obj.mu.Lock()
-	if _, has := obj.vars[name]; has {
+	vv, has := obj.vars[name]
+	if has {
 		delete(obj.vars, name)
 		removed = true
-		for _, u := range obj.Users {
-			if vv := u.vars[name]; vv != nil && vv.Pkg == obj {
-				delete(u.vars, name)
-			}
-		}
 	}
 	delete(obj.classes, name)
+	users := append([]*Package{}, obj.Users...)
 	obj.mu.Unlock()
+	if has && vv.Pkg == obj {
+		retract(users, name, vv, nil)
+	}
 	pname := fmt.Sprintf("%s:%s", obj.Name, name)
 	for _, h := range unsetHooks {
 		h.fun(obj, name)
@@ -514,31 +514,25 @@ func (obj *Package) Unexport(name string) {
 	name = strings.ToLower(name)
 	obj.mu.Lock()
 	// TBD remove from Exports list
-	if obj.funcs != nil {
-		if fi := obj.funcs[name]; fi != nil {
-			fi.Export = false
-			for _, u := range obj.Users {
-				u.mu.Lock()
-				if xf := u.funcs[name]; xf != nil && obj == xf.Pkg {
-					delete(u.funcs, name)
-				}
-				u.mu.Unlock()
-			}
-		}
+	fi := obj.funcs[name]
+	if fi != nil {
+		fi.Export = false
 	}
-	if obj.vars != nil {
-		if vv := obj.vars[name]; vv != nil {
-			vv.Export = false
-			for _, u := range obj.Users {
-				u.mu.Lock()
-				if xv := u.vars[name]; xv != nil && obj == xv.Pkg {
-					delete(u.vars, name)
-				}
-				u.mu.Unlock()
-			}
-		}
+	vv := obj.vars[name]
+	if vv != nil {
+		vv.Export = false
 	}
+	users := append([]*Package{}, obj.Users...)
 	obj.mu.Unlock()
+	if (fi != nil && fi.Pkg == obj) || (vv != nil && vv.Pkg == obj) {
+		if fi != nil && fi.Pkg != obj {
+			fi = nil
+		}
+		if vv != nil && vv.Pkg != obj {
+			vv = nil
+		}
+		retract(users, name, vv, fi)
+	}
 }
 
 // Undefine a function.
